@@ -26,3 +26,15 @@ From KV Require Import StateGen StateBase StateImportProofs StateExportProofs.
 Theorem C20_state_as_modelled : state_import = modelled_state_import /\ state_export = modelled_state_export.
 Proof. exact (conj state_import_as_modelled state_export_as_modelled). Qed.
 Print Assumptions C20_state_as_modelled.
+
+(* dump then load: the text dumps returns (= what dump writes, monitor) is read by the FILE reader as exactly the rows
+   the exporter rendered, cell for cell (rows made only of "", "*", "." are not written) - for every document, every
+   option set and whatever the cells hold besides tab / LF / CR; hence load(dump(d)) imports from the exported grid *)
+From KV Require Import Token Exporter ReadBackProofs.
+Theorem C20_dump_then_load_reads_exported_rows : forall bad d o rows, export_rows d o = Ok rows ->
+  (forall r c, In r rows -> In c r -> cell_ok c = true) ->
+  exists text, dumps d o = Ok text /\
+    load_file bad text = match run_rows bad init_state (filter (fun r => negb (empty_row r)) rows) with
+                         | IOk s => IOk (i_doc s) | IErr e => IErr e | IOut => IOut end.
+Proof. exact dumps_then_load. Qed.
+Print Assumptions C20_dump_then_load_reads_exported_rows.
